@@ -107,12 +107,13 @@ static void sec_fieldcomp(Ctx& c, uint64_t idx) {
 
 // ============================================================================ magnetic models
 struct MagRef {       // field of one coefficient set at one point: B = -a grad V  (nT) and its condition number
-  Vec3 B; Q scale = 0, allow = 0;
+  Vec3 B; Q scale = 0, allow = 0; bool under = false;   // under: the library's internally scaled sum is in the subnormal range
 };
 static MagRef mag_set(const RefEval& R, const DenseSet& d, Q a) {
   MagRef m; if (d.nmx < 0) return m;
   AxisAllow al; ref::HarmResult o = R.sum(a, d.C, d.S, d.nmx, d.mmx, al);
   m.B.x = -a * o.gx; m.B.y = -a * o.gy; m.B.z = -a * o.gz; m.scale = a * o.gabs_n; m.allow = a * al.dG;
+  m.under = scaled_underflow(o, a / R.g.r);
   return m;
 }
 
@@ -206,6 +207,10 @@ static void sec_magnetic(Ctx& c, uint64_t idx) {
       sB = fabsq(1 - tau / dtq) * A.scale + fabsq(tau / dtq) * Bn.scale + A.scale + Cn.scale;
     } else { Bt = Bn.B; sBt = Bn.scale; sB = A.scale + fabsq(tau) * Bn.scale + Cn.scale; }
     allow = A.allow + Bn.allow * fmaxq(1, fabsq(tau / (interp ? dtq : (Q)1))) + Cn.allow;
+    if (near_knot) {   // the library may have used the other neighbouring interval: same value (continuity), other rounding
+      int kk = (int)roundq(tt / dtq); MagRef P1 = mag_set(R, ds[kk - 1], mm.radius), P2 = mag_set(R, ds[kk], mm.radius), P3 = mag_set(R, ds[kk + 1], mm.radius);
+      sB += 2 * (P1.scale + P2.scale) + (kk + 1 < NM ? P3.scale * 2 : 0); allow += P1.allow + P2.allow + P3.allow; }
+    bool under = A.under || Bn.under || Cn.under;
     Bv.x = A.B.x + tau * Bt.x + Cn.B.x; Bv.y = A.B.y + tau * Bt.y + Cn.B.y; Bv.z = A.B.z + tau * Bt.z + Cn.B.z;
     Q Be, Bnn, Bu, Bte, Btn, Btu; ref::to_enu(Fm, Bv.x, Bv.y, Bv.z, Be, Bnn, Bu); ref::to_enu(Fm, Bt.x, Bt.y, Bt.z, Bte, Btn, Btu);
     std::string cls = cls0 + "/" + tcl;
@@ -216,9 +221,9 @@ static void sec_magnetic(Ctx& c, uint64_t idx) {
     Q tolB = (Q)EPS * sB * K_M + allow + (Q)1e-300, tolBt = (Q)EPS * sBt * K_M + allow / fminq(dtq, 1) + (Q)1e-300;
     auto chk = [&](const char* what, const std::string& key, double gx, double gy, double gz, Q wx, Q wy, Q wz, Q tol) {
       double e = finite3(gx, gy, gz) ? dq(fmaxq(fmaxq(fabsq((Q)gx - wx), fabsq((Q)gy - wy)), fabsq((Q)gz - wz)) / tol) * K_M : INF;
-      c.obs(std::string("magnetic ") + what + " err [eps*sum(n+2)|term|, weighted by |time weights|]", e, wit);
+      c.obs(std::string("magnetic ") + what + " err [eps*sum(n+2)|term|, weighted by |time weights|]" + (under ? " (internal scaling subnormal)" : ""), e, wit);
       if (c.only) std::fprintf(stderr, "%s %s: lib (%.17g,%.17g,%.17g) ref (%s,%s,%s) e=%g\n", cls.c_str(), what, gx, gy, gz, qs(wx).c_str(), qs(wy).c_str(), qs(wz).c_str(), e);
-      if (!(e <= K_M)) c.viol(key, cls, J(wit).str("quantity", what).f("err_over_eps_scale", e).f("got_x", gx).f("got_y", gy).f("got_z", gz).str("want_x", qs(wx)).str("want_y", qs(wy)).str("want_z", qs(wz)));
+      if (!(e <= K_M)) c.viol(under ? KEY_UNDER : key, cls, J(wit).str("quantity", what).f("err_over_eps_scale", e).f("got_x", gx).f("got_y", gy).f("got_z", gz).str("want_x", qs(wx)).str("want_y", qs(wy)).str("want_z", qs(wz)));
     };
     double bx = vh::sentinel(1), by = vh::sentinel(2), bz = vh::sentinel(3), bxt = vh::sentinel(4), byt = vh::sentinel(5), bzt = vh::sentinel(6);
     (*M)(t, lat, lon, h, bx, by, bz, bxt, byt, bzt);
@@ -250,9 +255,9 @@ static void sec_magnetic(Ctx& c, uint64_t idx) {
         if (std::isnan(e)) e = INF; if (std::isnan(et)) et = INF;
         worst = std::max(worst, e); if (!near_knot) worstt = std::max(worstt, et);
       }
-      c.obs("magnetic circle vs direct field [eps*scale]", worst, wit); c.obs("magnetic circle vs direct rate [eps*scale]", worstt, wit);
-      if (!(worst <= 2 * K_M)) c.viol("law:C19/magneticcircle/field-differs-from-direct", cls, J(wit).f("err_over_eps_scale", worst));
-      if (!(worstt <= 2 * K_M)) c.viol("law:C19/magneticcircle/rate-differs-from-direct", cls, J(wit).f("err_over_eps_scale", worstt));
+      c.obs(std::string("magnetic circle vs direct field [eps*scale]") + (under ? " (internal scaling subnormal)" : ""), worst, wit); c.obs(std::string("magnetic circle vs direct rate [eps*scale]") + (under ? " (internal scaling subnormal)" : ""), worstt, wit);
+      if (!(worst <= 2 * K_M)) c.viol(under ? KEY_UNDER : "law:C19/magneticcircle/field-differs-from-direct", cls, J(wit).f("err_over_eps_scale", worst));
+      if (!(worstt <= 2 * K_M)) c.viol(under ? KEY_UNDER : "law:C19/magneticcircle/rate-differs-from-direct", cls, J(wit).f("err_over_eps_scale", worstt));
       if (!(mc.Latitude() == lat && mc.Height() == h && mc.Time() == t && mc.Flattening() == ef)) c.viol("oracle:C19/magneticcircle/inspectors", cls, wit);
     }
   }
